@@ -39,6 +39,7 @@ type Pipe struct {
 	RecvCalls  int
 	Opts       map[string]interface{}
 	T          *Tran
+	Peer       *Pipe // linked pipe of another socket: what is sent here arrives there
 }
 
 func NewPipe(t *Tran, name string) *Pipe {
@@ -62,6 +63,9 @@ func (p *Pipe) Send(m *mangos.Message) error {
 		return mangos.ErrClosed
 	}
 	p.Sent = append(p.Sent, Rec{H: append([]byte{}, m.Header...), B: append([]byte{}, m.Body...), At: verif.Now()})
+	if p.Peer != nil && !p.Peer.Closed {
+		p.Peer.Deliver(append(append([]byte{}, m.Header...), m.Body...))
+	}
 	if p.T != nil {
 		p.T.Log = append(p.T.Log, Ev{Pipe: p, Kind: "send", N: len(p.Sent) - 1})
 	}
@@ -344,4 +348,17 @@ func (s *Side) Peer(name string) *Pipe {
 	p := s.L.Connect(name)
 	verif.Quiesce()
 	return p
+}
+
+
+// Link connects two sockets (each already listening through Listen) by a pair
+// of cross-wired pipes and returns them.
+func Link(a, b *Side, name string) (*Pipe, *Pipe) {
+	pa := NewPipe(a.L.T, name+":a")
+	pb := NewPipe(b.L.T, name+":b")
+	pa.Peer, pb.Peer = pb, pa
+	a.L.acceptq <- acc{p: pa}
+	b.L.acceptq <- acc{p: pb}
+	verif.Quiesce()
+	return pa, pb
 }
